@@ -46,14 +46,36 @@ def run_impl(case):
             ln = Line(fs, storage="BINARY")
             # records written / read earlier through the SAME line object (a file writer reuses one Line)
             for pv in case.get("prior", []):
-                pw = ln.write([codec.dec_val(v) for v in pv])
+                pw = ln.write([codec.dec_val(v, case.get("np_scalars", False)) for v in pv])
                 ln.read(pw)
-            vals = [codec.dec_val(v) for v in case["values"]]
+            vals = [codec.dec_val(v, case.get("np_scalars", False)) for v in case["values"]]
             w = ln.write(vals)
             r = ln.read(w)
+            # pre-existing target buffers: writing a field's value again into a copy of the record
+            # that ends at, just inside, or beyond the field's own span must leave the record as it is
+            # (the span is the field's own, everything else is untouched: C02's splice)
+            rewrite_bad = None
+            if isinstance(w, bytes) and len(fs) <= 8 and case.get("fam", "").startswith("mixed"):
+                for f, v in zip(fs, vals):
+                    a, b = f.starting_position, f.ending_position
+                    if any(g is not f and g.starting_position < b and a < g.ending_position for g in fs):
+                        continue
+                    for L in {b, max(a + 1, b - 1), len(w)}:
+                        if L < a + 1 or L > len(w):
+                            continue
+                        f.value = v
+                        out = f.write(w[:L])
+                        if out != w[: max(L, b)]:
+                            rewrite_bad = f"field [{a},{b}) rewritten into the first {L} bytes of its own record gave {len(out)} bytes {out!r}, the record holds {w[: max(L, b)]!r}"
+                            break
+                    if rewrite_bad:
+                        break
         if not isinstance(w, bytes):
             return {"exc": "NotBytes"}
-        return {"written": list(w), "read_back": [codec.enc_val(x) for x in r]}
+        out = {"written": list(w), "read_back": [codec.enc_val(x) for x in r]}
+        if rewrite_bad:
+            out["rewrite_bad"] = rewrite_bad
+        return out
     except Exception as e:
         return codec.enc_exc(e)
 
@@ -77,6 +99,8 @@ def judge(case, obs, resp):
         return {"status": "oracle", "why": f"binary write/read raised {obs['exc']}: {obs.get('msg')}"}
     if not resp["holds"]:
         return {"status": "oracle", "why": f"got {show(obs)}; required {show(resp.get('model'))}"}
+    if obs.get("rewrite_bad"):
+        return {"status": "oracle", "why": obs["rewrite_bad"]}
     if not resp["agree"]:
         return {"status": "corr", "why": f"model {show(resp.get('model'))} vs implementation {show(obs)}"}
     return {"status": "ok", "why": ""}
@@ -263,6 +287,8 @@ def random_layout(rng):
         for i in range(len(case["values"])):
             if rng.random() < 0.5:
                 case["values"][i] = None
+    if rng.random() < 0.25:
+        case["np_scalars"] = True  # the values are numpy scalars (np.int64 / np.float64), as taken from a DataFrame
     return case
 
 
